@@ -565,6 +565,9 @@ class WebSocket:
             start_time = time.time()
             while timeout is None or time.time() - start_time < timeout:
                 try:
+                    if timeout is not None:
+                        # wait for what is left of the timeout, not for a full one per frame
+                        self.sock.settimeout(timeout - (time.time() - start_time))
                     frame = self.recv_frame()
                     if frame.opcode != ABNF.OPCODE_CLOSE:
                         continue
